@@ -74,9 +74,15 @@ def t2(ctx, rep, T):
         raise core.Incomplete('try_from: match over syn::Type not found')
     top = ms[0]
     arms = {re.sub(r'\(.*', '', v).split('::')[-1]: a for a in top['arms'] for v in a['variants'] if v != '_'}
+    # recursion, read from the call facts: a recursive `try_from` call fed with the payload of that syntax variant
+    fx = ctx.x(f)
+    rec = [c for c in fx['calls'] if str(c.get('f', '')).replace(' ', '').split('::')[-1] == 'try_from']
+
+    def fed_by(c, variant):
+        return any(x.get('k') == 'payload' and str(x.get('variant', '')).split('(')[0].endswith(variant) for a2 in c.get('args', []) for x in vt.walk(a2))
     for name in ('Reference', 'Array', 'Slice'):
         a = arms.get(name)
-        ok = a is not None and re.search(r'try_from\s*\(\s*&?\s*(\w+\s*\.\s*)?elem\b', a['body']) is not None
+        ok = a is not None and any(fed_by(c, f'Type::{name}') and 'elem' in vt.show(c['args'][0]) for c in rec)
         rep.check(ok, 'T2', f'try_from:{name}:recurses', 'recurses on the element type', f"RustType::try_from: the {name} arm does not parse its element type recursively", {'file': f['file'], 'line': a['line'] if a else f['line']})
     # tuples: unit accepted, others rejected; catch-all rejects
     wild = [a for a in top['arms'] if '_' in a['variants']]
@@ -88,8 +94,35 @@ def t2(ctx, rep, T):
         return
     body = pa['body']
     rep.check(re.search(r'segments\s*\.\s*(iter\s*\(\s*\)\s*\.\s*)?last\s*\(\s*\)', body) is not None, 'T2', 'try_from:last-segment', 'name taken from the last path segment', 'RustType::try_from no longer names the type by its last path segment (path qualification must be dropped)', {'file': f['file'], 'line': pa['line']})
-    params_ok = re.search(r'args\s*\.\s*iter\s*\(\s*\)\s*\.\s*filter_map', body) and re.search(r'GenericArgument\s*::\s*Type\s*\(\s*r#type\s*\)\s*=>\s*Some\s*\(\s*Self\s*::\s*try_from', body)
-    trunc = re.search(r'args\s*\.\s*iter\s*\(\s*\)[^;]*\.\s*(take|skip|step_by|rev|nth|last|first)\s*\(', body)
+    # every generic *type* argument is parsed, in order: the recursive call is fed with the GenericArgument::Type payload
+    # of an element of the complete `args` list (no truncating adaptor on the source, no other condition on the path)
+    TRUNCATING = ('take', 'skip', 'step_by', 'rev', 'nth', 'last', 'first', 'take_while', 'skip_while', 'next', 'find', 'filter', 'peekable')
+    garg = [c for c in rec if fed_by(c, 'GenericArgument::Type')]
+    params_ok = bool(garg)
+    trunc = None
+    for c in garg:
+        for x in (y for a2 in c['args'] for y in vt.walk(a2)):
+            if x.get('k') == 'elem':
+                # adaptors applied to the argument list itself (between `.args` and the element)
+                chain = []
+                v2 = vt.unvar(x.get('of'))
+                while isinstance(v2, dict) and v2.get('k') == 'call' and v2.get('recv') is not None:
+                    chain.append(v2.get('f'))
+                    v2 = vt.unvar(v2['recv'])
+                is_args = isinstance(v2, dict) and ((v2.get('k') == 'field' and v2.get('name') == 'args') or (v2.get('k') == 'atom' and (v2.get('path') or [''])[-1] == 'args'))
+                if is_args and any(t in chain for t in TRUNCATING):
+                    trunc = [t for t in chain if t in TRUNCATING]
+        extra = []
+        for fr in c['guard']:
+            if fr.get('k') == 'if':
+                cv = vt.unvar(fr.get('c'))
+                is_variant_test = isinstance(cv, dict) and cv.get('k') == 'iflet' and any(('GenericArgument' in v2 or 'PathArguments' in v2) for v2 in cv.get('variants', []))
+                if not is_variant_test or fr.get('neg'):
+                    extra.append(vt.show(fr.get('c'))[:60])
+            if fr.get('k') == 'arm' and fr.get('guard'):
+                extra.append('arm guard')
+        if extra:
+            params_ok = False
     rep.check(bool(params_ok) and not trunc, 'T2', 'try_from:all-type-arguments', 'every type argument parsed, in order', 'RustType::try_from does not collect every generic type argument in order', {'file': f['file'], 'line': pa['line']})
     # the name dispatch
     nm = [m for m in f['matches'] if any(v.startswith('lit:') for a in m['arms'] for v in a['variants'])]
